@@ -49,6 +49,8 @@ pub struct Ctx {
     pub started: Instant,
     /// soft time budget in seconds (cases stop being started after it)
     pub budget_s: u64,
+    /// offset added to the case index of this run (sub-runs of one check use disjoint case id ranges)
+    pub case_base: u64,
 }
 
 impl Ctx {
@@ -217,6 +219,12 @@ pub fn panic_sig(p: &str) -> String {
 pub fn run_cases(ctx: &Ctx, n: u64, f: &(dyn Fn(&Ctx, u64, &mut Rng, &mut Report) + Sync)) -> Report {
     let next = AtomicU64::new(0);
     let total = Mutex::new(Report::new());
+    // replay: skip sub-runs whose case id range cannot contain the case
+    if let Some(only) = ctx.only_case {
+        if only < ctx.case_base || only - ctx.case_base >= n {
+            return Report::new();
+        }
+    }
     let threads = if ctx.only_case.is_some() { 1 } else { ctx.threads.max(1) };
     std::thread::scope(|s| {
         for _ in 0..threads {
@@ -228,7 +236,7 @@ pub fn run_cases(ctx: &Ctx, n: u64, f: &(dyn Fn(&Ctx, u64, &mut Rng, &mut Report
                         break;
                     }
                     if let Some(only) = ctx.only_case {
-                        if i != only {
+                        if i + ctx.case_base != only {
                             continue;
                         }
                     } else if ctx.out_of_time() {
